@@ -38,6 +38,12 @@ def check(ctx: Ctx):
     from . import c11 as _c11
 
     _support.compose(ctx, _c11.check_merge_dispatch, keep=("SIBLING", "EFFECT"))
+    # extend / the constructor accept any iterable of droplets (generators included): it is consumed once
+    from ..rules import iteronce as _iteronce
+
+    for q_ in ("droplets.emulsions.Emulsion.extend", "droplets.emulsions.Emulsion.__init__"):
+        for fi_ in ctx.model.funcs(q_):
+            _iteronce.check_function(ctx, fi_)
     ctx.expect("SURFACE", 1)
     m = ctx.model
     ctx.explain(
